@@ -3,6 +3,7 @@ C02 — method rows are exactly what the place notation defines.
 -/
 import Wheatley.Props.C04
 import Wheatley.Lemmas.RoundTripH
+import Wheatley.Lemmas.Change
 namespace Wheatley.C02
 open Wheatley.C04
 
@@ -34,6 +35,49 @@ theorem plain_rows (c : PNCfg) :
     simp only [iter, applyAll]
     have := ih { (pnStep c g).1 with row := (pnStep c g).2, index := g.index + 1 } h2 h3 h4
     rw [this, h1]
+
+/-- **`permute` is the change the notation denotes**, as one equation: for every stage, row and
+parity-consistent place set, the loop of `permute` gives exactly the row described position by position by
+`Spec.at` — named places, the implied lead and the covers keep their bell; the unnamed places exchange in
+pairs from the first one up; an unnamed place left without a partner stays. -/
+theorem permute_is_the_change (stage : Nat) (row : Row) (P : Places)
+    (hc : Consistent stage P (firstPlace P)) : permute stage row P = Spec.apply stage row P :=
+  permute_eq_spec stage row P hc
+
+/-- The rows obtained by applying the *denotations* of the given changes one after the other. -/
+def specAll (stage : Nat) : Row → List Places → List Row
+  | _, [] => []
+  | r, p :: ps => Spec.apply stage r p :: specAll stage (Spec.apply stage r p) ps
+
+theorem applyAll_eq_specAll (stage : Nat) (ps : List Places)
+    (h : ∀ P ∈ ps, Consistent stage P (firstPlace P)) :
+    ∀ r, applyAll stage r ps = specAll stage r ps := by
+  induction ps with
+  | nil => intro r; rfl
+  | cons p ps ih =>
+    intro r
+    simp only [applyAll, specAll]
+    rw [permute_eq_spec stage r p (h p (by simp)), ih (fun P hP => h P (by simp [hP]))]
+
+/-- **Row `k` of a plain course, by denotation**: when the method's changes are parity-consistent, the rows
+rung are the start row transformed by the *denotations* of the first `k` changes read cyclically from the
+start index — no reference to the swap loop of `permute` remains in the statement. -/
+theorem plain_rows_denoted (c : PNCfg) (hc : ∀ i, Consistent c.stage (plainChange c i) (firstPlace (plainChange c i)))
+    (k : Nat) (g : Gen) (hq : g.callPN = []) (hb : g.hasBob = false) (hs : g.hasSingle = false) :
+    (iter c k g).2 = specAll c.stage g.row (changesFrom c g.index k) := by
+  rw [plain_rows c k g hq hb hs]
+  apply applyAll_eq_specAll
+  intro P hP
+  simp only [changesFrom, List.mem_map] at hP
+  obtain ⟨j, _, rfl⟩ := hP
+  exact hc _
+
+/-- Non-vacuity and a reading of the definition: `x` on four, `14` on six (lead implied for `4`:
+no — `1` is named, so the loop starts at place 1), `36` on six with the lead implied. -/
+example : Spec.apply 4 [1, 2, 3, 4] [] = [2, 1, 4, 3] ∧
+    Spec.apply 6 [1, 2, 3, 4, 5, 6] [1, 4] = [1, 3, 2, 4, 6, 5] ∧
+    Spec.apply 6 [1, 2, 3, 4, 5, 6, 7, 8] [3, 6] = [2, 1, 3, 5, 4, 6, 7, 8] ∧
+    Spec.apply 6 [1, 2, 3, 4, 5, 6] [2, 5] = [1, 2, 4, 3, 5, 6] := by decide
 
 /-- The lead index is `(k + start_index) mod lead_len`, also for negative start indices. -/
 theorem leadIndex_spec (c : PNCfg) (k : Nat) (h : 0 < c.leadLen) :
